@@ -29,12 +29,26 @@ def build_mtool(profile="debug"):
     return os.path.join(kengine.NATIVE_TARGET, profile, "mtool")
 
 
-def native_eval(exe, lines, timeout=300):
-    p = subprocess.run([exe], input="\n".join(lines) + "\n", capture_output=True, text=True, timeout=timeout)
+def native_eval(exe, lines, timeout=120):
+    try:
+        p = subprocess.run([exe], input="\n".join(lines) + "\n", capture_output=True, text=True, timeout=timeout)
+    except subprocess.TimeoutExpired:
+        # some request does not terminate natively: evaluate one by one, each under its own limit ('HANG' for those)
+        return [native_eval_guarded(exe, l, timeout=10) for l in lines]
     out = p.stdout.strip().split("\n") if p.stdout.strip() else []
     if len(out) != len(lines):
         raise RuntimeError("mtool returned %d lines for %d requests (rc=%d): %s" % (len(out), len(lines), p.returncode, p.stderr[-500:]))
     return out
+
+
+def native_eval_guarded(exe, line, timeout=10):
+    """One request in its own process under a time limit: -> output line | 'HANG' (no answer within the limit)"""
+    try:
+        p = subprocess.run([exe], input=line + "\n", capture_output=True, text=True, timeout=timeout)
+    except subprocess.TimeoutExpired:
+        return "HANG"
+    out = p.stdout.strip().split("\n")
+    return out[0] if out and out[0] else "NO-OUTPUT rc=%d" % p.returncode
 
 
 def hexs(s):
